@@ -80,6 +80,10 @@ func StartDaemon(pol Policy, certDir string, certs *Certs, scratch string, idx i
 	opts.HTTPSAddress = "127.0.0.1:0"
 	opts.BroadcastAddress = "127.0.0.1"
 	opts.DataPath = d.dir
+	// the stub auth server shares a (possibly very busy) machine with everything else: nsqd's defaults of 2 s to
+	// connect and 5 s per request would turn scheduling delays into E_AUTH_FAILED
+	opts.HTTPClientConnectTimeout = 60 * time.Second
+	opts.HTTPClientRequestTimeout = 60 * time.Second
 	if pol.TLSCfg {
 		opts.TLSCert = certDir + "/server.pem"
 		opts.TLSKey = certDir + "/server.key"
@@ -122,7 +126,7 @@ func StartDaemon(pol Policy, certDir string, certs *Certs, scratch string, idx i
 	// the observer's own access to GET /stats: plaintext unless the policy refuses plaintext HTTP
 	tr := &http.Transport{MaxIdleConnsPerHost: 64, IdleConnTimeout: 30 * time.Second,
 		TLSClientConfig: certs.Config("signed")}
-	d.stats = &http.Client{Transport: tr, Timeout: 30 * time.Second}
+	d.stats = &http.Client{Transport: tr, Timeout: 90 * time.Second}
 	if pol.EffTLS() == "yes" {
 		d.statsBase = fmt.Sprintf("https://127.0.0.1:%d", d.HTTPSPort)
 	} else {
@@ -210,7 +214,7 @@ func (d *Daemon) HTTPRequest(port, cert, route, prefix string) (int, string) {
 		base = fmt.Sprintf("https://127.0.0.1:%d", d.HTTPSPort)
 		tr.TLSClientConfig = d.certs.Config(cert)
 	}
-	cl := &http.Client{Transport: tr, Timeout: 30 * time.Second,
+	cl := &http.Client{Transport: tr, Timeout: 90 * time.Second,
 		CheckRedirect: func(*http.Request, []*http.Request) error { return http.ErrUseLastResponse }}
 	var resp *http.Response
 	var err error
